@@ -162,6 +162,9 @@ def make_state(seed):
         first = "self, " if kind == "method_in_class" else ""
         args = ", ".join("%s=%s" % (p["name"], render.lit(p["default"]) if p["default"] is not None else "None") for p in desc["params"])
         src = 'def train(%s%s):\n    """ """\n    return %s\n' % (first, args, desc["params"][0]["name"])
+    if kind != "live_function" and ch.chance("qualified", 0.25):
+        # annotations spelled through the module (typing.Optional[int], List[typing.Any]): names nested inside a subscript
+        src = src.replace(": Optional[", ": typing.Optional[").replace(": Literal[", ": typing.Literal[").replace("Optional[List[", "Optional[typing.List[")
     return {"seed": seed, "kind": kind, "src": src, "with_ret": with_ret, "with_body": with_body}
 
 
